@@ -29,6 +29,9 @@ type Call struct {
 	// Args is the literal JSON sent as "arguments" (it need not be an object).
 	// Empty means CallToolParams.Arguments is left nil.
 	Args   json.RawMessage `json:"args,omitempty"`
+	// AsGo: the arguments are handed to CallTool as the Go value they decode to (map, slice, string, float64,
+	// bool) instead of as raw JSON: the same JSON goes over the wire either way.
+	AsGo bool `json:"as_go,omitempty"`
 	ArgMut []string        `json:"arg_mut,omitempty"` // labels, for the histogram only
 	// Out is the JSON from which the handler builds the value it returns.
 	Out    json.RawMessage `json:"out,omitempty"`
@@ -116,6 +119,7 @@ func genExplicit(rt *rapid.T) Script {
 	for i := 0; i < n; i++ {
 		var c Call
 		c.Args, c.ArgMut = genArgs(g, in)
+		c.AsGo = g.pct(30, "as_go")
 		c.Out, c.OutMut = genOut(g, out, false)
 		c.Own = g.pct(35, "own")
 		c.OutRaw = g.pct(25, "outraw")
@@ -138,6 +142,7 @@ func genGoType(rt *rapid.T) Script {
 	for i := 0; i < n; i++ {
 		var c Call
 		c.Args, c.ArgMut = genArgs(g, p.In)
+		c.AsGo = g.pct(30, "as_go")
 		c.Out, c.OutMut = genOut(g, p.Out, true)
 		c.Own = g.pct(35, "own")
 		s.Calls = append(s.Calls, c)
@@ -331,6 +336,10 @@ func run(s Script) (res vt.Result) {
 		params := &mcp.CallToolParams{Name: "t"}
 		if len(c.Args) > 0 {
 			params.Arguments = json.RawMessage(c.Args)
+			if v := mustDecode(c.Args); c.AsGo && v != nil {
+				params.Arguments = v
+				res.Class("arguments_handed_over_as_go_values")
+			}
 		}
 		result, callErr := cs.CallTool(ctx, params)
 		env.mu.Lock()
